@@ -269,7 +269,14 @@ static void sceneTransform(const Scene &s, int t, Scene &o)
         long long a2 = 0; for (size_t i = 0; i < sh.size(); i++) { auto &p = sh[i], &q = sh[(i + 1) % sh.size()]; a2 += (long long)p.first * q.second - (long long)q.first * p.second; }
         if (a2 < 0) std::reverse(sh.begin(), sh.end());
     }
-    for (auto &c : o.conns) { int X, Y; f(c.sx, c.sy, X, Y); c.sx = X; c.sy = Y; f(c.dx, c.dy, X, Y); c.dx = X; c.dy = Y; }
+    // direction masks turn with the scene: Up = -y (1), Down = +y (2), Left = -x (4), Right = +x (8)
+    auto fd = [&](int mask) {
+        static const int vx[4] = {0, 0, -1, 1}, vy[4] = {-1, 1, 0, 0};
+        int out = 0;
+        for (int b = 0; b < 4; b++) if (mask & (1 << b)) { int X, Y; f(vx[b], vy[b], X, Y); out |= (Y < 0) ? 1 : (Y > 0) ? 2 : (X < 0) ? 4 : 8; }
+        return out;
+    };
+    for (auto &c : o.conns) { int X, Y; f(c.sx, c.sy, X, Y); c.sx = X; c.sy = Y; f(c.dx, c.dy, X, Y); c.dx = X; c.dy = Y; c.sd = fd(c.sd); c.dd = fd(c.dd); }
 }
 
 static void runScene(const Scene &s, double ox, double oy, std::vector<std::vector<Point> > &raw, std::vector<std::vector<Point> > &disp, bool &thrown)
@@ -280,7 +287,7 @@ static void runScene(const Scene &s, double ox, double oy, std::vector<std::vect
     std::vector<ConnRef *> conns;
     try {
         for (auto &sh : s.shapes) { Polygon poly((int)sh.size()); for (size_t i = 0; i < sh.size(); i++) poly.ps[i] = Point(sh[i].first + ox, sh[i].second + oy); new ShapeRef(router, poly); }
-        for (auto &c : s.conns) conns.push_back(new ConnRef(router, ConnEnd(Point(c.sx + ox, c.sy + oy)), ConnEnd(Point(c.dx + ox, c.dy + oy))));
+        for (auto &c : s.conns) conns.push_back(new ConnRef(router, ConnEnd(Point(c.sx + ox, c.sy + oy), (ConnDirFlags)c.sd), ConnEnd(Point(c.dx + ox, c.dy + oy), (ConnDirFlags)c.dd)));
         router->processTransaction();
         for (auto c : conns) { raw.push_back(c->route().ps); disp.push_back(c->displayRoute().ps); }
     } catch (...) { thrown = true; }
@@ -308,6 +315,7 @@ static int frameMode(const char *inFile, const char *outFile, uint64_t seed)
         runScene(s, kx / 1024.0, ky / 1024.0, rawT, dispT, tT);
         vt::J j; j.obj(); sceneJson(j, s);
         j.k("thrown").b(tA || tB || tT).k("kx").i(kx).k("ky").i(ky);
+        j.k("masks").arr(); for (auto &c : s.conns) j.arr().i(c.sd).i(c.dd).end(); j.end();
         auto limbRoutes = [&](const char *key, std::vector<std::vector<Point> > &R) {
             j.k(key).arr(); for (auto &r : R) { j.arr(); for (auto &p : r) { vt::limbs(j, p.x); vt::limbs(j, p.y); } j.end(); } j.end(); };
         auto latRoutes = [&](const char *key, std::vector<std::vector<Point> > &R) {
